@@ -98,6 +98,11 @@ def run(ctx):
         if got != want:
             ctx.fail(f"{exprs.show(t)}|{tuple(sorted(rho.items()))}|outcome", {"expression": exprs.show(t), "rc": rho}, f"(fulfilled, conditional) = {want}", str(got),
                      "oracle: reported outcome differs from the one the compositional state stands for")
+    # the same outcome when the user's asynchronous evaluators really suspend (one key slower than the others, ...): last, it re-configures the injector
+    from vlib import latency
+
+    ctx.add_eval(latency.rc_latency_oracle(ctx, cases, 25 if ctx.quick else 300,
+                                           "oracle: the outcome of requirement_constraint_evaluation does not depend on how long the single evaluators take"))
     ctx.coverage["distinct_nontrivial"] = nontrivial
     ctx.coverage["rule"] = ("all trees with <= 3 leaves over keys {1,2|501,502|901,902} x 4 operators x all assignments of {FULFILLED,UNFULFILLED,UNKNOWN} "
                             "(exhaustive), plus random in-domain trees up to the tier's leaf bound; every case goes through evaluate_requirement_constraint_tree "
